@@ -137,7 +137,9 @@ def mapping(cur_fn, base_fn):
     for x, y in m.items():
         inv.setdefault(y, []).append(x)
     for y, xs in inv.items():
-        if len(xs) > 1 or (y in cl and y not in m):
+        # several current names for one baseline name are fine (the baseline re-used one temporary where the current code has
+        # two); mapping onto a name that is still in use unrenamed in the current function would capture it
+        if y in cl and y not in m and not votes.get(y, {}).get(y, 0):
             for x in xs:
                 m.pop(x, None)
     return m
